@@ -140,9 +140,33 @@ func evaluate(prop *propertySpec, ctxs []*Ctx, known *knownFile) *runOutcome {
 	seenKey := map[string]bool{}
 	for _, c := range ctxs {
 		for _, rf := range prop.Rules {
+			c.xIndex = 0
 			r := rf(c)
 			if r == nil {
 				continue
+			}
+			// the commands are executed at more than one place: the rule holds if it holds around each of them
+			if xs := c.runSitesQuiet(); len(xs) > 1 {
+				have := map[string]string{}
+				for _, in := range r.Instances {
+					have[in.Key] = in.Verdict
+				}
+				for xi := 1; xi < len(xs); xi++ {
+					c.xIndex = xi
+					ri := rf(c)
+					if ri == nil {
+						continue
+					}
+					for _, in := range ri.Instances {
+						if v, dup := have[in.Key]; dup && v == in.Verdict {
+							continue
+						}
+						in.Key += fmt.Sprintf(" [commands run at %s]", c.ipos(xs[xi]))
+						have[in.Key] = in.Verdict
+						r.Instances = append(r.Instances, in)
+					}
+				}
+				c.xIndex = 0
 			}
 			// Rules that reason with entry conditions (engine E1: which option flags guard the way to a call site) cannot relate a
 			// flag to an action when the action is picked from a table of function values: what they would report as a violation
